@@ -36,9 +36,9 @@ def confirm(name, pid, src, base):
             print(json.dumps({'name': name, 'confirmed': False, 'reason': f'patch does not apply to {base}'}))
             return False
         dc = subprocess.run([PY, f'{src}/demo.py'], capture_output=True, text=True, env=dict(os.environ, PYTHONPATH=wt), cwd=src, timeout=1800)
-        sh(f'git -C {wt} stash')
+        sh(f'git -C {wt} apply -R {src}/patch.diff')
         do = subprocess.run([PY, f'{src}/demo.py'], capture_output=True, text=True, env=dict(os.environ, PYTHONPATH=wt), cwd=src, timeout=1800)
-        sh(f'git -C {wt} stash pop')
+        sh(f'git -C {wt} apply {src}/patch.diff')
         t = sh(f'cd {wt} && PYTHONPATH={wt} {PY} -m pytest -q -p no:cacheprovider --timeout=900 -n 6 2>&1 | tail -3')
         m = re.search(r'(\d+) passed', t.stdout)
         passed = int(m.group(1)) if m else 0
